@@ -4,6 +4,7 @@ package complete
 import (
 	"errors"
 	"sort"
+	"strings"
 
 	"src.elv.sh/pkg/cli/modes"
 	"src.elv.sh/pkg/diag"
@@ -74,6 +75,13 @@ func Complete(code CodeBuffer, ev *eval.Evaler, cfg Config) (*Result, error) {
 		ctx, rawItems, err := completer(path, ev, cfg)
 		if err == errNoCompletion {
 			continue
+		}
+		if ctx.interval.From == ctx.interval.To && code.Dot < ctx.interval.From &&
+			strings.Trim(code.Content[code.Dot:ctx.interval.From], " \t\r\n") == "" {
+			// Starting a new word with the cursor inside a run of whitespace:
+			// insert at the cursor rather than at the end of the run, where
+			// the inserted text could fuse with the following word.
+			ctx.interval = range0(code.Dot)
 		}
 		rawItems = cfg.Filterer(ctx.name, ctx.seed, rawItems)
 		sort.Slice(rawItems, func(i, j int) bool {
